@@ -284,4 +284,18 @@ Fixpoint observe (s : st) (ops : list op)
   | o :: r => let '(s1, res, e) := step s o in (res, e, observe_st s1) :: observe s1 r
   end.
 
+(* ---- SharedMonotonicBufferResource::release over the per-thread exclusive resources (enumeration order) ----
+   The body is two for_each loops: destruct_all() on every resource, then release() on every resource
+   (Gen.shared_release_destructs_first = 1 iff the source has exactly these two loops in this order). *)
+Definition destruct_all (s : st) : st * list ev := (set_dtor s 0 [] [], dtor_events s).
+
+Definition sh_release (S : list st) : list st * list ev :=
+  if Z.eqb shared_release_destructs_first 1 then
+    let S1 := map (fun s => fst (destruct_all s)) S in
+    let e1 := concat (map (fun s => snd (destruct_all s)) S) in
+    let R := map do_release S1 in
+    (map (fun x => fst (fst x)) R, e1 ++ concat (map snd R))
+  else
+    let R := map do_release S in (map (fun x => fst (fst x)) R, concat (map snd R)).
+
 End WithPageSize.
